@@ -60,7 +60,7 @@ def _sw(name, default="TRUE"):
     return v
 
 
-# TRUE = the code as found at HEAD; set to FALSE (environment or here) once /repo carries the repair out/proposed_fixes/G06_*.diff
+# TRUE = the code as found at HEAD; set to FALSE (environment or here) once /repo carries the repair findings/G06_*.diff
 SW = {"NodesFatal": _sw("G06_NODES_FATAL"), "DeleteConnEscapes": _sw("G06_DELETE_CONN_ESCAPES"), "KillForgotten": _sw("G06_KILL_FORGOTTEN"),
       "CompleteNeedsPod": _sw("G06_COMPLETE_NEEDS_POD"), "FirstConditionWins": _sw("G06_FIRST_CONDITION_WINS")}
 
